@@ -574,6 +574,9 @@ Section MainLoop.
     Hypothesis completer_ok : forall text p, bd text p ->
       bd text (fst (c_complete cfg text p)) /\ fst (c_complete cfg text p) <= p.
 
+    (* the window has at least one column (get_win_size never answers 0: it substitutes 80) *)
+    Hypothesis cols_ok : 1 <= c_cols cfg.
+
     Lemma rp_wait_yn fuel : forall c, rp H (wait_yn U cfg fuel c).
     Proof.
       induction fuel as [|f IH]; intros c; cbn [wait_yn]; [intros s _; exact Logic.I|].
@@ -594,6 +597,12 @@ Section MainLoop.
     Proof.
       apply rp_of_kq; [|apply kh_page].
       apply kq_of_q5. unfold page_completions_simple. cbv zeta.
+      (* neither division has a zero divisor *)
+      set (mw := Nat.min (cols cfg) (fold_left Nat.max (map (layout_w U) cs) 0 + 2)).
+      assert (Hmw : 1 <= mw /\ mw <= cols cfg) by (unfold mw, cols; lia).
+      replace (Nat.eqb mw 0) with false by (symmetry; apply Nat.eqb_neq; lia).
+      assert (Hnc : 1 <= cols cfg / mw) by (apply Nat.div_le_lower_bound; lia).
+      replace (Nat.eqb (cols cfg / mw) 0) with false by (symmetry; apply Nat.eqb_neq; lia).
       apply quiet5_bind; [apply q5_rows|]. intros _. q5_auto. apply q5_refresh_line.
     Qed.
 
@@ -641,7 +650,7 @@ Section MainLoop.
           apply (rp_of_kq H _ (kq_of_q5 cfg _ (q5_refresh_line U cfg)) (kh_refresh_line U cfg) s1 HP1). }
         unfold ebind at 1.
         match goal with |- match match ?x with _ => _ end with _ => _ end => destruct x as [u s1| | |] end; auto.
-        revert s1 Hstep1. clear.
+        revert s1 Hstep1. clear - cols_ok.
         match goal with |- forall s1, P H s1 -> match ?m s1 with _ => _ end => change (rp H m) end.
         destruct (Nat.ltb 1 (length (cd :: cds))); [|apply rp_ret].
         apply rp_bind; [apply rp_of_kq; [apply kq_of_q5, q5_beep|unfold beep; kh_auto]|]. intros _.
@@ -669,7 +678,7 @@ Section MainLoop.
           cbn [ebind set_line upd_line eret] in *. unfold eret in *. cbn in Hn |- *.
           split; [split; [exact Hn|exact HN2]|exact Hh2]. }
         destruct (lb_quiet (set_pos (pos (e_line s1))) s2) as [u3 s3| | |]; auto.
-        revert s3 Hsp. clear.
+        revert s3 Hsp. clear - cols_ok.
         match goal with |- forall s3, P H s3 -> match ?m s3 with _ => _ end => change (rp H m) end.
         destruct (Nat.ltb (c_prompt_limit cfg) (length (cd :: cds))); [|apply rp_page].
         apply rp_bind; [apply rp_of_kq; [apply kq_of_q5, q5_write|intros ? ? ? Hx; inversion Hx; reflexivity]|]. intros _.
